@@ -1,6 +1,7 @@
 package main
 
 import (
+	"fmt"
 	"reflect"
 	"strconv"
 	"strings"
@@ -325,6 +326,61 @@ func c07(r *mon.Run) {
 			cx.runBoth(tree, expr, doc)
 			t.Nontrivial("pipe:" + expr + ref.Canon(doc))
 		}}
+	// long chains of one operator and of mixed operators (left-deep as written, and right-nested with parentheses),
+	// decided by the first operand, by a middle one, by the last one: the value is one of the operands, and finding
+	// it takes time proportional to the length of the chain
+	chainLensOp := []int{2, 3, 8, 16, 24, 32, 40, 64, 200}
+	const chForms = 12
+	lchain := mon.Workload{Name: "long-operator-chains", N: len(chainLensOp) * chForms, Batch: 4,
+		Do: func(i int, t *mon.Tally) {
+			n := chainLensOp[i/chForms]
+			form := i % chForms
+			opnd := func(k int) *gen.Expr { return gen.Field(fmt.Sprint("f", k)) }
+			doc := map[string]interface{}{}
+			decide := []int{0, n / 2, n - 1}[form%3] // which operand decides
+			or := form/3%2 == 0
+			for k := 0; k < n; k++ {
+				var v interface{}
+				if or {
+					v = nil // false-like until the deciding operand
+					if k >= decide {
+						v = fmt.Sprint("v", k)
+					}
+				} else {
+					v = fmt.Sprint("v", k) // true-like until the deciding operand
+					if k >= decide {
+						v = ""
+					}
+				}
+				doc[fmt.Sprint("f", k)] = v
+			}
+			var tree *gen.Expr
+			if form/6 == 0 { // left-deep
+				tree = opnd(0)
+				for k := 1; k < n; k++ {
+					if or {
+						tree = gen.Or(tree, opnd(k))
+					} else {
+						tree = gen.And(tree, opnd(k))
+					}
+				}
+			} else { // right-nested
+				tree = opnd(n - 1)
+				for k := n - 2; k >= 0; k-- {
+					if or {
+						tree = gen.Or(opnd(k), gen.Paren(tree))
+					} else {
+						tree = gen.And(opnd(k), gen.Paren(tree))
+					}
+				}
+			}
+			if form%2 == 1 {
+				tree = gen.Not(tree)
+			}
+			cx := &caseCtx{r, t, "long-operator-chains", i}
+			cx.runBoth(tree, gen.SpellTight(tree), doc)
+			t.Nontrivial(fmt.Sprint("chain:", i))
+		}}
 	// operator trees over representative operands
 	reps := gen.List(gen.LitJSON("null"), gen.LitJSON("0"), gen.LitJSON(`""`), gen.LitJSON("[null]"), gen.Field("a"), gen.Field("b"))
 	var bin []func(a, b *gen.Expr) *gen.Expr
@@ -429,7 +485,7 @@ func c07(r *mon.Run) {
 			cx.runOne(tree, gen.Spell(tree), doc)
 			t.NontrivialDistinct(1)
 		}}
-	ws := []mon.Workload{pairs, unary, ptrs, pipew, sc, scf, trees, three, rnd, eqw, numw, kindPairsWorkload(r, "C07")}
+	ws := []mon.Workload{pairs, unary, ptrs, pipew, lchain, sc, scf, trees, three, rnd, eqw, numw, kindPairsWorkload(r, "C07")}
 	if r.Tier == "thorough" {
 		d2m := gen.Materialize(gen.Union(gen.Map(d1, un...), gen.Product(reps, d1, bin...)))
 		d3 := gen.Product(d2m, d1, bin...)
